@@ -60,12 +60,12 @@ noncomputable def φ : QE → ℝ := fun x => (x.q : ℝ)
 /-! ### the one place where `qeNum` is not arithmetic: the size guard of `powNat`
 
 `qeNum.powNat a n` does not compute astronomically large exact powers: when
-`(log2 |num a| + log2 (den a) + 2) * n > 2000000` it answers `⟨0, false⟩` (value `0`, flag "not
+`(log2 |num a| + log2 (den a) + 2) * n > 300000` it answers `⟨0, false⟩` (value `0`, flag "not
 representable").  The value `0` is then *wrong*; the run is only meaningful if the guard never
 fires.  `PowFits a n` is "the guard does not fire". -/
 
 /-- the size guard of `qeNum.powNat` does not fire -/
-def PowFits (a : QE) (n : ℕ) : Prop := (a.q.num.natAbs.log2 + a.q.den.log2 + 2) * n ≤ 2000000
+def PowFits (a : QE) (n : ℕ) : Prop := (a.q.num.natAbs.log2 + a.q.den.log2 + 2) * n ≤ 300000
 
 instance (a : QE) (n : ℕ) : Decidable (PowFits a n) := by unfold PowFits; infer_instance
 
@@ -87,9 +87,9 @@ theorem log2_lt_of_lt_two_pow {m k : ℕ} (hk : 0 < k) (h : m < 2 ^ k) : m.log2 
   · exact (Nat.log2_lt hm).mpr h
 
 /-- a handy sufficient condition ("small integer or dyadic rational"): numerator and denominator
-below `2 ^ k` and `2 k n ≤ 2000000` -/
+below `2 ^ k` and `2 k n ≤ 300000` -/
 theorem PowFits.of_small {a : QE} {n k : ℕ} (hk : 0 < k) (hnum : a.q.num.natAbs < 2 ^ k)
-    (hden : a.q.den < 2 ^ k) (hkn : 2 * k * n ≤ 2000000) : PowFits a n := by
+    (hden : a.q.den < 2 ^ k) (hkn : 2 * k * n ≤ 300000) : PowFits a n := by
   unfold PowFits
   have h1 := log2_lt_of_lt_two_pow hk hnum
   have h2 := log2_lt_of_lt_two_pow hk hden
